@@ -154,21 +154,29 @@ static void cases(Harness &H, const std::vector<mpq_class> &gp) {
           H.end();
         }
       }
-    // generator with supplied grid
-    if (H.take()) {
-      H.begin("o" + std::to_string(oa) + "," + std::to_string(ob) + ";" + gv.name + ";generator");
+    // generator with supplied grid; knots = the points of G, simple / clamped (ends three-fold) / one interior double knot
+    // (with repeated knots there are fewer distinct values than knots: guards that count knots instead of points)
+    for (int km = 0; km < 3; km++) {
+      if (!H.take()) continue;
+      static const char *kmn[] = {"simple", "clamped", "interior-double"};
+      H.begin("o" + std::to_string(oa) + "," + std::to_string(ob) + ";" + gv.name + ";generator;knots=" + kmn[km]);
+      std::vector<mpq_class> kn;
+      for (size_t i = 0; i < gp.size(); i++) {
+        size_t rep = km == 1 && (i == 0 || i + 1 == gp.size()) ? 3 : (km == 2 && i == gp.size() / 2 ? 2 : 1);
+        for (size_t r = 0; r < rep; r++) kn.push_back(gp[i]);
+      }
       std::string res, ref;
       Outcome oc = attempt([&] {
-        bspline::BSplineGenerator<S> gen(to_s<S>(gp), g2);
+        bspline::BSplineGenerator<S> gen(to_s<S>(kn), g2);
         for (auto &s : gen.template generateBSplines<oa>()) res += dump(s) + "|";
       });
       if (gv.equal) {
-        bspline::BSplineGenerator<S> gen(to_s<S>(gp));
+        bspline::BSplineGenerator<S> gen(to_s<S>(kn));
         for (auto &s : gen.template generateBSplines<oa>()) ref += dump(s) + "|";
         if (oc.threw() || res != ref) H.fail("equal-grid-result", "generator with an equal grid object: " + oc.str());
         H.cls("generator:accepted");
       } else {
-        if (oc.o != Out::BSPLINE_EXC) H.fail("not-refused", "generator accepted a supplied grid that does not match its knots (" + gv.name + "): " + oc.str());
+        if (oc.o != Out::BSPLINE_EXC) H.fail("not-refused", "generator accepted a supplied grid that does not match its knots (" + gv.name + ", " + kmn[km] + " knots): " + oc.str());
         H.cls("generator:refused");
         H.nontriv();
       }
